@@ -28,8 +28,11 @@ C10_MOUNTPOINT_DETAILS = ("MountFS: scandir(parent) reports a mount point with t
 C05_ALIAS_WORKERS = ("OSFS copy_dir/move_dir(workers>0) onto another name of the source (hard-link snapshot, symlinked "
                      "directory): the worker threads truncate the shared files")
 C05_ALIAS_MOVE_LINK = "OSFS move of a symbolic link onto the file it points to: the file's name is left as a dangling link"
-PENDING_FINDINGS = [C05_ALIAS_WORKERS, C05_ALIAS_MOVE_LINK, C10_MOUNTPOINT_DETAILS]
-# (the three C10/C11 signatures above were genuine defects, repaired in /repo (b3334b1, 2e1ab1a): violations again if they return)
+# TODO (to be registered in known_findings.json; until then counted in the evidence, not reported):
+PENDING_FINDINGS = []      # the two OSFS alias findings are registered in known_findings.json; the MountFS mount-point
+#                            details inconsistency was repaired in /repo (75d0617): a violation again if it returns
+# (WALK_SPELLING_SIG and the two C10_CACHED_PAGE signatures were genuine defects, repaired in /repo (b3334b1, 2e1ab1a):
+#  not pending any more, violations again if they return)
 
 _MT = re.compile(r"@(N|Si-?\d+)")
 _MTI = re.compile(r"\|(N|Si-?\d+)\)")
@@ -1961,7 +1964,7 @@ def run_c10(report):
     per = collections.Counter()
     n_spell = 0
     for bc in backs:
-        for hi, h in enumerate(hs if bc in (B.Mem, B.OS) or thorough else hs[:8] if bc in C10_HETERO else hs[:25]):
+        for hi, h in enumerate(hs if bc in (B.Mem, B.OS) or thorough else hs[:6] if bc in C10_HETERO else hs[:25]):
             b = bc()
             try:
                 fs = b.make()
